@@ -165,3 +165,57 @@ Example C06_nonvacuous :
   run [EByte 34%N; EByte 97%N; EInterrupted; EFail 7%N] = PErr (XErr (EIo 7%N)) /\
   run [EByte 49%N; EByte 50%N; EFail 9%N] = PErr (XErr (EIo 9%N)).
 Proof. vm_compute. repeat split; reflexivity. Qed.
+
+(* A &str against the byte slice of the same bytes, for ANY bytes and events:
+   the two readers run the same code except that the slice reader validates the
+   UTF-8 of scanned symbols and strings; so either the slice parse answers
+   InvalidUnicodeCodePoint, or the str parse returns exactly what the slice
+   parse returns - value, error code, position. *)
+Theorem C06_str_slice_agree : forall ro alpha fast std_parse (inp : list event),
+  (exists l c, from_trait ro alpha fast std_parse SrcSlice inp = PErr (XErr (ESyntax InvalidUnicodeCodePoint l c))) \/
+  from_trait ro alpha fast std_parse SrcStr inp = from_trait ro alpha fast std_parse SrcSlice inp.
+Proof. exact str_slice_agree. Qed.
+Print Assumptions C06_str_slice_agree.
+
+Theorem C06_str_slice_agree_datum : forall ro alpha fast std_parse (inp : list event),
+  (exists l c, datum_from_trait ro alpha fast std_parse SrcSlice inp = PErr (XErr (ESyntax InvalidUnicodeCodePoint l c))) \/
+  datum_from_trait ro alpha fast std_parse SrcStr inp = datum_from_trait ro alpha fast std_parse SrcSlice inp.
+Proof. exact str_slice_agree_datum. Qed.
+Print Assumptions C06_str_slice_agree_datum.
+
+(* all three sources on plain bytes *)
+Theorem C06_three_sources_agree : forall ro alpha fast std_parse (s : bytes),
+  (exists l c, from_trait ro alpha fast std_parse SrcSlice (bytes_events s) = PErr (XErr (ESyntax InvalidUnicodeCodePoint l c))) \/
+  (from_trait ro alpha fast std_parse SrcStr (bytes_events s) = from_trait ro alpha fast std_parse SrcSlice (bytes_events s) /\
+   match from_trait ro alpha fast std_parse SrcSlice (bytes_events s), from_trait ro alpha fast std_parse SrcIo (bytes_events s) with
+   | POk a, POk b => a = b
+   | PErr (XErr (ESyntax c1 _ _)), PErr (XErr (ESyntax c2 _ _)) => c1 = c2
+   | PErr (XErr (EIo a)), PErr (XErr (EIo b)) => a = b
+   | _, _ => False
+   end).
+Proof.
+  intros ro alpha fast std_parse s. destruct (str_slice_agree ro alpha fast std_parse (bytes_events s)) as [R|H]; [left; exact R|].
+  right. split; [exact H|]. apply slice_stream_agree.
+Qed.
+Print Assumptions C06_three_sources_agree.
+
+(* both cases occur: a non-ASCII text read alike, an error alike at the same
+   position, and ill-formed bytes on which the slice answers the rejection
+   (a str can never hold them) *)
+Example C06_str_slice_nonvacuous :
+  let W : bytes := (s2b "(" ++ [206; 187] ++ s2b "x #:k ""a\x3bb;" ++ [240; 159; 146; 150] ++ s2b "\n"")")%N in
+  let E : bytes := (s2b "(a " ++ [206; 187] ++ s2b " . )")%N in
+  let bad : bytes := [40; 97; 32; 255; 41]%N in
+  from_trait default_ro (fun _ => true) true dec_to_f64 SrcStr (bytes_events W) =
+    POk (vlist [Symbol [206; 187; 120]%N; Keyword (s2b "k"); String ([97; 206; 187; 240; 159; 146; 150; 10]%N)]) /\
+  from_trait default_ro (fun _ => true) true dec_to_f64 SrcSlice (bytes_events W) =
+    POk (vlist [Symbol [206; 187; 120]%N; Keyword (s2b "k"); String ([97; 206; 187; 240; 159; 146; 150; 10]%N)]) /\
+  from_trait default_ro (fun _ => true) true dec_to_f64 SrcStr (bytes_events E) =
+    from_trait default_ro (fun _ => true) true dec_to_f64 SrcSlice (bytes_events E) /\
+  (exists c l cl, from_trait default_ro (fun _ => true) true dec_to_f64 SrcSlice (bytes_events E) = PErr (XErr (ESyntax c l cl))) /\
+  from_trait default_ro (fun _ => true) true dec_to_f64 SrcSlice (bytes_events bad) =
+    PErr (XErr (ESyntax InvalidUnicodeCodePoint 1 4)).
+Proof.
+  cbv zeta. split; [vm_compute; reflexivity|]. split; [vm_compute; reflexivity|]. split; [vm_compute; reflexivity|].
+  split; [|vm_compute; reflexivity]. eexists; eexists; eexists. vm_compute. reflexivity.
+Qed.
